@@ -61,7 +61,7 @@ PROPS = {
     },
     'C05': {
         'corpus': ['D2.ops'],
-        'families': [gen('pricing', 40, 120), gen('dust', 20, 120)],
+        'families': [gen('pegfee', 40, 100), gen('pricing', 25, 120), gen('dust', 15, 120)],
         'slice': [r'hub\.bond', r'tok\.send\.unbond', r'tok\.sendfrom\.unbond', r'tok\.send\.convert', r'tok\.sendfrom\.convert'],
         'explanation': 'fee bounds and never-past-the-peg proved for bond, unbond, convert stSei->bSei; convert bSei->stSei proved under the exact cap (D2 is the code not respecting it)',
     },
@@ -110,5 +110,10 @@ PROPS = {
         'families': [gen('registry', 25, 120), gen('mixed', 20, 120), gen('pricing', 20, 120), gen('release', 10, 120)],
         'slice': PRICING_KINDS + [r'hub\.ugi', r'env\.slash', r'reg\..*'],
         'explanation': 'delegate messages sum to the payment and target registered validators (via C12), books <= delegations after every check, undelegation exact; stored pool totals vs chain delegations and hub bank balance compared after every hub transaction, registry changing mid-history',
+    },
+    'C07': {
+        'families': [gen('release', 30, 120), gen('mixed', 20, 120), gen('token', 10, 120)],
+        'slice': [r'tok\.send\.unbond', r'tok\.sendfrom\.unbond', r'hub\.withdraw', r'hub\.receive', r'env\.advance'],
+        'explanation': 'claim-sum invariant proved over unbond (both tokens), batch closing, release and withdrawal; on the implementation the sum of UnbondRequests over all users per batch is compared with CurrentBatch / AllHistory after every step, with Send and SendFrom, both tokens in one batch, across epoch boundaries',
     },
 }
